@@ -1185,6 +1185,21 @@ pub fn make(profile: &str, seed: u64, index: u64) -> (Params, Extras) {
                     use crate::world::{tag, Targeted};
                     p.targeted.push(Targeted { from: None, tags: tag::RESET, skip: 0, drop: r.range(1, 5) as u32 });
                 }
+                // aligned: the first *_BLOCKED datagrams and the first RESET_STREAM datagrams are both
+                // lost and every writer gives up within about two round trips of getting stuck, so
+                // that a blocked frame is still in flight (or just declared lost) when its stream
+                // is reset and both are due for retransmission together
+                if r.chance(1, 2) {
+                    use crate::world::{tag, Targeted};
+                    p.targeted.clear();
+                    p.targeted.push(Targeted { from: None, tags: tag::BLOCKED, skip: 0, drop: r.range(1, 4) as u32 });
+                    p.targeted.push(Targeted { from: None, tags: tag::RESET, skip: 0, drop: r.range(1, 3) as u32 });
+                    for c in p.clients.iter_mut() {
+                        for s in c.streams.iter_mut() {
+                            s.fwd.end = End::ResetAfter { delay_us: r.range(rtt / 8, 2 * rtt), code: r.range(0, 1000) };
+                        }
+                    }
+                }
             }
             p
         }
